@@ -225,7 +225,9 @@ class Engine:
     # ------------------------------------------------------------------ heap
     def base_array(self, key, sort=None):
         if key not in self.base_arrays:
-            if sort is None: raise Unsupported('heap key %s used before its sort is known' % key)
+            if sort is None:
+                try: sort = z3.ArraySort(I, self.key_sort(key))
+                except Exception: raise Unsupported('heap key %s used before its sort is known' % key)
             self.base_arrays[key] = z3.Const(key + '!0', sort)
         return self.base_arrays[key]
 
@@ -1168,7 +1170,7 @@ class Engine:
     def call(self, d, this, arg_nodes, st, fr, n, virtual=False, base_type=None):
         """call of a repo function with AST body (or use its contract)"""
         qn = self.ast.qname.get(d['id']) or self.ast.qualified_name(d)
-        contract = self.use_contracts.get(qn)
+        contract = self.use_contracts.lookup(qn, d, self) if hasattr(self.use_contracts, 'lookup') else self.use_contracts.get(qn)
         if contract is not None and contract.applies(d, self):
             return contract.apply_at_call(self, d, this, arg_nodes, st, fr, n)
         if virtual and isinstance(this, ObjLV) and this.ty.kind == 'record':
@@ -1181,7 +1183,7 @@ class Engine:
         return self.call_static(d, qn, this, arg_nodes, st, fr, n)
 
     def call_static(self, d, qn, this, arg_nodes, st, fr, n):
-        contract = self.use_contracts.get(qn)
+        contract = self.use_contracts.lookup(qn, d, self) if hasattr(self.use_contracts, 'lookup') else self.use_contracts.get(qn)
         if contract is not None and contract.applies(d, self):
             return contract.apply_at_call(self, d, this, arg_nodes, st, fr, n)
         mdl = self.models.repo_override(qn)
